@@ -25,6 +25,13 @@ OBLIGATIONS = [
     (P + "http_header_lines_roundtrip", "HTTP (generated parser): plain header lines reach the per-header code unchanged, one by one, in order; then process_request; body left unread (partial: no folded/quoted headers, no inverse of header canonicalisation / percent-decoding)"),
     (P + "get_after_adds", "string_map (open addressing, growth at total*2>=size, probe start/step regenerated from private/string_map.h): for every hash function and every sequence of adds, get(name) = the abstract environment's answer; breaks when get does not probe the way add inserted"),
     (P + "get_after_adds_plain", "string_map: a name never added is not found; with pairwise different names every variable is found by name with the value it was added with (any hash, any number of growths)"),
+    (P + "urldecode_inverts_percent_encoding", "util::urldecode inverts every percent-encoding (any set of escaped bytes, upper/lower case hex digits, + or %20 for a blank)"),
+    (P + "parse_form_urlencoded_roundtrip", "request::parse_form_urlencoded: for every list of fields and every admissible encoding the form holds the fields the peer meant, in order"),
+    (P + "parse_cookies_roundtrip", "request::parse_cookies: every list of cookies (token names, token or empty values, ; or , and any blanks between) is delivered as the map the peer meant"),
+    (P + "http_head_roundtrip", "HTTP request head through the per-line code: request line split, parse_single_header (canonical CGI names), process_request (method check, ? split, script-name match, percent-decoding of the path) = the head the peer meant"),
+    (P + "http_roundtrip", "HTTP round trip: well-formed request, header lines folded any way, body, any segmentation -> exactly the peer's head and body stream reach the request layer"),
+    (P + "keepalive_sequence_http", "HTTP keep-alive: well-formed requests back to back on one connection, any segmentation, are each delivered exactly, in order"),
+    (P + "frontends_agree_http", "the embedded HTTP server and a gateway sending the derived CGI variables over SCGI / FastCGI (any framing, any segmentation) agree on the fate of the request"),
     (P + "scgi_roundtrip", "SCGI round trip: WF request encoded by the peer, any segmentation -> exactly the peer's environment (pairs, order) and body stream reach the request layer"),
 ]
 OBLIGATIONS_FILE = os.path.join(HERE, "c01_obligations.json")
